@@ -43,13 +43,28 @@ def complete(decls):
     return out
 
 
+def with_teams(decls, k):
+    """Gives most applications a `team` attribute (two values), the grouping attribute of the option runs."""
+    out = []
+    n = 0
+    for d in decls:
+        if d["k"] == "app":
+            d = dict(d)
+            n += 1
+            if (n + k) % 3 != 0:
+                d["attrs"] = list(d.get("attrs") or []) + [["team", "t%d" % ((n + k) % 2 + 1)]]
+        out.append(d)
+    return out
+
+
 def check_c13(ctx):
     quick = ctx.quick()
     core.build_vh(ctx)
     mc = core.model_check(ctx, "SeqDiagramMC", "MCSeqDiagramSmall.cfg" if quick else "MCSeqDiagram.cfg", timeout=2400)
     gen = core.generate(ctx, "FrontendGen", "GenCalls.cfg", num=220 if quick else 3000, depth=400,
                         seed=ctx.seed * 100 + 13, timeout=2400)
-    scn = [{"id": i + 1, "decls": complete(g["decls"]), "seed": ctx.seed, "starts": [], "text": False} for i, g in enumerate(gen)]
+    scn = [{"id": i + 1, "decls": with_teams(complete(g["decls"]), i), "seed": ctx.seed, "starts": [], "text": False, "opts": i % 2 == 0}
+           for i, g in enumerate(gen)]
     events, _ = core.vh_sharded(ctx, "seqdiag", scn, timeout=3000)
     # trace ids are per (program, start endpoint) and must be unique across shards
     remap, n = {}, 0
@@ -81,17 +96,20 @@ def check_c13(ctx):
             continue
         recursive_return = _recursion_with_return(b)
         sig = "C13/" + "+".join(names)
-        what = "start %s: %s; model %s" % (b["start"], names, json.dumps(b["eps"])[:600])
+        what = "start %s (blackboxes %s, grouping %s): %s; model %s" % (b["start"], b.get("cut"), b.get("group") or "off", names, json.dumps(b["eps"])[:600])
         core.add_violation(ctx, sig, what, {"family": "seqdiag", "scenario": dict(by_scn[b["scn"]], starts=[b["start"]]),
                                             "trace": [e for e in traces[t] if e["e"] != "begin"][:60]})
     cov = {"states": mc.distinct, "transitions": mc.generated, "traces_validated_against_impl": len(begins),
            "trace_events": nev, "programs": len(scn), "distinct_models_x_start": len(shapes),
            "errors_returned": sum(1 for e in events if e["e"] == "error"),
+           "diagrams_with_blackboxes": sum(1 for b in begins.values() if b.get("cut")),
+           "diagrams_with_grouping": sum(1 for b in begins.values() if b.get("group")),
            "samples": [{"start": b["start"], "eps": b["eps"]} for b in list(begins.values())[:2]]}
     return core.finish(ctx, "model_checking", cov, [
         "models are TLC-generated call graphs over three applications x two endpoints with calls (incl. self calls) anywhere in nested "
         "if/else/loop/group/one-of blocks and returns anywhere; every endpoint is used as the start; calls to undefined endpoints belong to C20",
-        "default labels (endpoint name on the arrow), no blackboxes, no grouping boxes, no ~human/~cron participants",
+        "default labels (endpoint name on the arrow); every start of every second program is also drawn with up to two other endpoints as "
+        "blackboxes and, for half of those, grouped by the attribute `team`; no ~human/~cron participants",
         "the PlantUML reader fails closed: an unrecognised line is an infrastructure error, not a verdict",
     ])
 
